@@ -2,6 +2,7 @@ package rules
 
 import (
 	"fmt"
+	"go/token"
 	"sort"
 	"strings"
 
@@ -93,6 +94,7 @@ func admittedTypes(fn *ssa.Function, pi int) []string {
 var subPathFns = map[*ssa.Function]bool{}
 
 func c19(c *Ctx) {
+	nodeIdExactMatch(c, "R-C19.10")
 	lockPairing(c, "R-C19.9")
 	p, r := c.P, c.R
 	r.Rule("R-C19.1", "each back end's type-to-sub-path switch covers exactly the message types types.ValidateMessage admits, with distinct non-empty constants none of which is a path-prefix of another; the two back ends' tables are equal; List admits the same set in both back ends, a subset of the table")
@@ -464,17 +466,25 @@ func c19Key(c *Ctx, be string, helper *ssa.Function) {
 	}
 	// key sinks
 	var keys []ssa.Value
+	type keyOp struct {
+		in      ssa.Instruction
+		mutates bool
+	}
+	var keyOps []keyOp
 	for _, ci := range core.AllCalls(helper) {
 		cn := core.CalleeName(ci.Common())
 		switch {
 		case strings.HasPrefix(cn, "(*github.com/armon/go-radix.Tree).") && (strings.HasSuffix(cn, ".Insert") || strings.HasSuffix(cn, ".Get") || strings.HasSuffix(cn, ".Delete")):
 			keys = append(keys, ci.Common().Args[1])
+			keyOps = append(keyOps, keyOp{ci, !strings.HasSuffix(cn, ".Get")})
 		case cn == "os.WriteFile" || cn == "os.ReadFile" || cn == "os.Remove" || cn == "os.OpenFile" || cn == "os.Create" || cn == "os.Open":
 			keys = append(keys, ci.Common().Args[0])
+			keyOps = append(keyOps, keyOp{ci, cn != "os.ReadFile" && cn != "os.Open"})
 		default:
 			// a package-local helper that receives the entry path and performs the file operation
 			if cal := ci.Common().StaticCallee(); cal != nil && cal.Pkg == helper.Pkg && cal.Signature.Recv() == nil && fileOpOnParam(cal) >= 0 {
 				keys = append(keys, ci.Common().Args[fileOpOnParam(cal)])
+				keyOps = append(keyOps, keyOp{ci, true})
 			}
 		}
 	}
@@ -485,6 +495,7 @@ func c19Key(c *Ctx, be string, helper *ssa.Function) {
 	for i, k := range keys {
 		origins := map[string]bool{}
 		seen := map[ssa.Value]bool{}
+		usesJoin := false
 		paramArg := map[*ssa.Parameter]ssa.Value{}
 		var walk func(v ssa.Value)
 		walk = func(v ssa.Value) {
@@ -514,6 +525,7 @@ func c19Key(c *Ctx, be string, helper *ssa.Function) {
 			case *ssa.Call:
 				cn := core.CalleeName(x.Common())
 				if cn == "path/filepath.Join" || cn == "path.Join" {
+					usesJoin = true
 					for _, e := range core.SliceLiteralElems(x.Call.Args[0]) {
 						walk(e)
 					}
@@ -564,6 +576,27 @@ func c19Key(c *Ctx, be string, helper *ssa.Function) {
 			}
 		}
 		r.Check(ok, "R-C19.6", fmt.Sprintf("%s entry key#%d", name, i), p.Pos(helper.Pos()), "depends on "+strings.Join(os, ","), "the entry key depends on "+strings.Join(os, ",")+"; it must depend on exactly (subPath, id) and back-end constants, or store/load/remove address different entries")
+		// a key built with a normalising join is injective in the id only if the id is a
+		// single path element: writes and removals must be cut by id == filepath.Base(id)
+		if usesJoin && i < len(keyOps) && keyOps[i].mutates {
+			gBase := core.Guard{Name: "id == filepath.Base(id)", Match: func(cond ssa.Value) (int, bool) {
+				bo, isBo := cond.(*ssa.BinOp)
+				if !isBo || (bo.Op != token.EQL && bo.Op != token.NEQ) {
+					return 0, false
+				}
+				for _, pair := range [][2]ssa.Value{{bo.X, bo.Y}, {bo.Y, bo.X}} {
+					if bc, isCall := pair[1].(*ssa.Call); isCall && core.CalleeName(bc.Common()) == "path/filepath.Base" && core.Strip(bc.Call.Args[0]) == core.Strip(pair[0]) && core.Strip(pair[0]) == idP {
+						if bo.Op == token.EQL {
+							return 0, true
+						}
+						return 1, true
+					}
+				}
+				return 0, false
+			}}
+			res := core.CutReach(p, helper, gBase, keyOps[i].in.Block())
+			r.CutOb(p, "R-C19.6", fmt.Sprintf("%s entry key#%d is a single path element", name, i), p.Pos(keyOps[i].in.Pos()), res, gBase)
+		}
 	}
 }
 
